@@ -75,8 +75,9 @@ static inline void
 readline_history_init(struct readline *rl, char *hs, int hsize)
 {
     rl->history_space = hs;
-    rl->history_size = hsize;
-    memset(hs, 0, rl->line.cap * hsize);
+    // history_size, headhist and curhist are uint8_t: 255 lines at most
+    rl->history_size = (uint8_t)(hsize > 255 ? 255 : hsize);
+    memset(hs, 0, rl->line.cap * rl->history_size);
 }
 
 static inline void readline_newline_reset(struct readline *rl)
